@@ -185,6 +185,16 @@ Definition serial_trace (hs : list (list step)) (pi : list nat) : list ev :=
 Definition count_acc (p : list step) : nat :=
   List.length (filter (fun a => match a with Access => true | _ => false end) p).
 
+(* a request with exactly one critical section: Lock; Access*; Unlock (or nothing at all) *)
+Fixpoint sec_body (p : list step) : bool :=
+  match p with
+  | [Unlock] => true
+  | Access :: r => sec_body r
+  | _ => false
+  end.
+Definition one_section (p : list step) : bool :=
+  match p with [] => true | Lock :: r => sec_body r | _ => false end.
+
 (* handlers without goroutines and channel operations *)
 Definition plain_step (a : step) : bool :=
   match a with Lock | Unlock | Access => true | _ => false end.
